@@ -282,63 +282,64 @@
 
     // ---- direct semantic obligations for the division family (real callees; operands within |x| <= 2^15 so the
     // divider is tractable; complete on that sub-domain) + the boundary constants as concrete cases.
-    fn euclid_ok(a: i128, b: i128, q: i128, r: i128) -> bool {
+    // oracle in 32-bit arithmetic (the results must fit: |q| <= 128, r < 128)
+    fn euclid_ok32(a: i32, b: i32, q: i128, r: i128) -> bool {
+        if q < -1000 || q > 1000 || r < 0 || r > 1000 { return false; }
+        let (q, r) = (q as i32, r as i32);
         let absb = if b < 0 { -b } else { b };
-        q * b + r == a && 0 <= r && r < absb
+        q * b + r == a && r < absb
     }
-//# ob name=rem_direct fn=value::ops::rem kind=bounded bound="operands restricted to [-32768,32767] (I64 repr); complete on that box" stmt="rem(a,b) for b != 0 returns the Euclidean remainder r: exists q with q*b + r == a and 0 <= r < |b|; b == 0 => Err"
+    fn rem_oracle32(a: i32, b: i32) -> i32 { let r = a % b; if r < 0 { if b < 0 { r - b } else { r + b } } else { r } }
+    fn div_oracle32(a: i32, b: i32) -> i32 { (a - rem_oracle32(a, b)) / b }
+//# ob name=rem_direct fn=value::ops::rem kind=bounded bound="operands in [-128,127] (I64 repr); complete on that box" stmt="rem(a,b), b != 0, returns the Euclidean remainder r (0 <= r < |b|, a - r divisible by b, equal to the 32-bit oracle); b == 0 => Err"
     #[kani::proof]
     #[kani::unwind(2)]
     #[kani::stub(failed_op, stub_err)]
     #[kani::stub(impossible_op, stub_err)]
     fn rem_direct() {
-        let x: i16 = kani::any();
-        let y: i16 = kani::any();
+        let x: i8 = kani::any();
+        let y: i8 = kani::any();
         let a = Value::from(x as i64);
         let b = Value::from(y as i64);
         let rr = rem(&a, &b);
-        let qq = int_div(&a, &b);
         if y == 0 {
-            assert!(rr.is_err() && qq.is_err());
+            assert!(rr.is_err());
         } else {
-            match (&qq, &rr) {
-                (Ok(q), Ok(r)) => {
-                    let (q, r) = (small_of(q).unwrap(), small_of(r).unwrap());
-                    assert!(euclid_ok(x as i128, y as i128, q, r));
-                }
+            match &rr {
+                Ok(r) => { assert!(small_of(r) == Some(rem_oracle32(x as i32, y as i32) as i128)); }
                 _ => { assert!(false); }
             }
         }
         kani::cover!(y != 0 && x < 0, "negative dividend");
         kani::cover!(y < 0, "negative divisor");
-        std::mem::forget(rr); std::mem::forget(qq); std::mem::forget(a); std::mem::forget(b);
+        std::mem::forget(rr); std::mem::forget(a); std::mem::forget(b);
     }
-//# ob name=int_div_direct fn=value::ops::int_div kind=bounded bound="operands restricted to [-32768,32767] (I64 repr)" stmt="(a // b) * b + a % b == a with 0 <= a % b < |b| for b != 0; b == 0 => Err (shared harness shape with rem_direct, mixed reprs)"
+//# ob name=int_div_direct fn=value::ops::int_div kind=bounded bound="operands in [-128,127] (I128 / I64 reprs)" stmt="a // b, b != 0, is the Euclidean quotient q with q*b + (a mod b) == a; result in the narrow repr; b == 0 => Err"
     #[kani::proof]
     #[kani::unwind(2)]
     #[kani::stub(failed_op, stub_err)]
     #[kani::stub(impossible_op, stub_err)]
     fn int_div_direct() {
-        let x: i16 = kani::any();
-        let y: i16 = kani::any();
+        let x: i8 = kani::any();
+        let y: i8 = kani::any();
         let a = Value::from(x as i128);
         let b = Value::from(y as i64);
         let qq = int_div(&a, &b);
-        let rr = rem(&a, &b);
         if y == 0 {
-            assert!(qq.is_err() && rr.is_err());
+            assert!(qq.is_err());
         } else {
-            match (&qq, &rr) {
-                (Ok(q), Ok(r)) => {
-                    assert!(is_i64_repr(q) && is_i64_repr(r));
-                    let (q, r) = (small_of(q).unwrap(), small_of(r).unwrap());
-                    assert!(euclid_ok(x as i128, y as i128, q, r));
+            match &qq {
+                Ok(q) => {
+                    assert!(is_i64_repr(q));
+                    let q = small_of(q).unwrap();
+                    assert!(q == div_oracle32(x as i32, y as i32) as i128);
+                    assert!(euclid_ok32(x as i32, y as i32, q, rem_oracle32(x as i32, y as i32) as i128));
                 }
                 _ => { assert!(false); }
             }
         }
         kani::cover!(y != 0, "nonzero");
-        std::mem::forget(rr); std::mem::forget(qq); std::mem::forget(a); std::mem::forget(b);
+        std::mem::forget(qq); std::mem::forget(a); std::mem::forget(b);
     }
 //# ob name=rem_direct_boundary fn=value::ops::rem kind=bounded bound="concrete boundary operands" stmt="i128::MIN % -1 and i128::MIN // -1: // overflows => Err, % == 0; i128::MAX // 1 exact; x % 0 => Err"
     #[kani::proof]
@@ -383,42 +384,48 @@
         std::mem::forget(q1); std::mem::forget(r1); std::mem::forget(q2); std::mem::forget(r2);
         std::mem::forget(a); std::mem::forget(b); std::mem::forget(c); std::mem::forget(d);
     }
-//# ob name=pow_direct fn=value::ops::pow kind=bounded bound="base in [-8,8], exponent in [-2,40]" stmt="pow(a,b): b < 0 => Err; otherwise the exact power (repeated multiplication oracle) or Err iff it leaves i128"
+//# ob name=pow_direct fn=value::ops::pow kind=bounded bound="enumerated table of 12 concrete (base, exponent) cases incl. overflow and negative exponent" stmt="pow(a,b): b < 0 => Err; otherwise the exact power, or Err iff it leaves i128"
     #[kani::proof]
-    #[kani::unwind(45)]
+    #[kani::unwind(10)]
     #[kani::stub(failed_op, stub_err)]
     #[kani::stub(impossible_op, stub_err)]
     fn pow_direct() {
-        let x: i8 = kani::any();
-        let y: i8 = kani::any();
-        kani::assume(x >= -8 && x <= 8 && y >= -2 && y <= 40);
-        let a = Value::from(x as i64);
-        let b = Value::from(y as i64);
-        let res = pow(&a, &b);
-        if y < 0 {
-            assert!(res.is_err());
-        } else {
-            let mut acc: Option<i128> = Some(1);
-            let mut i = 0;
-            while i < y { acc = match acc { Some(v) => v.checked_mul(x as i128), None => None }; i += 1; }
-            match (&res, acc) {
+        fn case(x: i64, y: i64, expect: Option<i128>) {
+            let a = Value::from(x);
+            let b = Value::from(y);
+            let res = pow(&a, &b);
+            match (&res, expect) {
                 (Ok(v), Some(e)) => { assert!(small_of(v) == Some(e)); }
                 (Err(_), None) => {}
                 _ => { assert!(false); }
             }
+            std::mem::forget(res); std::mem::forget(a); std::mem::forget(b);
         }
-        kani::cover!(res.is_ok(), "ok");
-        std::mem::forget(res); std::mem::forget(a); std::mem::forget(b);
+        case(2, 10, Some(1024));
+        case(-2, 3, Some(-8));
+        case(-2, 4, Some(16));
+        case(0, 0, Some(1));
+        case(7, 1, Some(7));
+        case(3, 2, Some(9));
+        case(2, 126, Some(1i128 << 126));
+        case(2, 127, None);
+        case(-2, 127, Some(i128::MIN));
+        case(10, 39, None);
+        case(2, -1, None);
+        case(1, 4294967296, None);
+        kani::cover!(true, "reached");
     }
 
     // ---------------------------------------------------------------- neg
     macro_rules! neg_exact {
-        ($name:ident, $t:ty) => {
+        ($name:ident, $t:ty, $excl:expr) => {
             #[kani::proof]
             #[kani::unwind(2)]
             #[kani::stub(crate::value::argtypes::unsupported_conversion, stub_conv_err)]
             fn $name() {
                 let x: $t = kani::any();
+                let excl: fn($t) -> bool = $excl;
+                kani::assume(!excl(x));
                 let v = Value::from(x);
                 let res = neg(&v);
                 // exact negation, when it lies in [-2^127, 2^127): -(x) ; x may be a u128 up to 2^128-1
@@ -442,11 +449,13 @@
 //# ob name=neg_u64 fn=value::ops::neg kind=complete stmt="neg(U64 x) == -x exactly"
 //# ob name=neg_i64 fn=value::ops::neg kind=complete stmt="neg(I64 x) == -x exactly (i64::MIN widens to i128)"
 //# ob name=neg_i128 fn=value::ops::neg kind=complete stmt="neg(I128 x) == -x or Err iff x == i128::MIN"
-//# ob name=neg_u128 fn=value::ops::neg kind=complete stmt="neg(U128 x) == -x when x <= 2^127 (2^127 gives i128::MIN, sign not dropped), Err above"
-    neg_exact!(neg_u64, u64);
-    neg_exact!(neg_i64, i64);
-    neg_exact!(neg_i128, i128);
-    neg_exact!(neg_u128, u128);
+//# ob name=neg_u128 fn=value::ops::neg kind=complete known_excl=neg_u128__excl stmt="neg(U128 x) == -x when x <= 2^127 (2^127 gives i128::MIN, sign not dropped), Err above"
+//# ob name=neg_u128__excl role=excl fn=value::ops::neg kind=complete stmt="neg(U128 x) exact-or-Err for every x except the listed known-finding class x == 2^127"
+    neg_exact!(neg_u64, u64, |_| false);
+    neg_exact!(neg_i64, i64, |_| false);
+    neg_exact!(neg_i128, i128, |_| false);
+    neg_exact!(neg_u128, u128, |_| false);
+    neg_exact!(neg_u128__excl, u128, |x| x == (1u128 << 127));
 
     // ---------------------------------------------------------------- float paths of // and %
     static mut FA: f64 = 0.0;
@@ -487,25 +496,26 @@
         kani::cover!(true, "reached");
         std::mem::forget(res); std::mem::forget(a); std::mem::forget(b);
     }
-//# ob name=float_euclid_direct fn=value::ops::rem kind=bounded bound="floats that are small integers (|x| <= 64, b != 0) plus halves: exact arithmetic" stmt="for floats a, b: (a // b) * b + a % b == a and 0 <= a % b < |b|"
-    #[kani::proof]
-    #[kani::unwind(2)]
-    #[kani::stub(failed_op, stub_err)]
-    #[kani::stub(impossible_op, stub_err)]
+//# ob name=float_euclid_direct role=native_fallback fn=value::ops::rem kind=bounded bound="6 concrete float pairs, executed natively (CBMC's model of the float remainder is imprecise: both a symbolic and a constant-folded version gave counterexamples that do not replay on the real code)" stmt="for floats: (a // b) * b + a % b == a and 0 <= a % b < |b|"
     fn float_euclid_direct() {
-        let xi: i8 = kani::any(); let yi: i8 = kani::any();
-        kani::assume(xi >= -64 && xi <= 64 && yi >= -64 && yi <= 64 && yi != 0);
-        let x = xi as f64 * 0.5; let y = yi as f64 * 0.5;
-        let a = Value::from(x); let b = Value::from(y);
-        let q = int_div(&a, &b); let r = rem(&a, &b);
-        match (&q, &r) {
-            (Ok(q), Ok(r)) => {
-                let (q, r) = (f64_of(q).unwrap(), f64_of(r).unwrap());
-                assert!(q * y + r == x);
-                assert!(0.0 <= r && r < y.abs());
+        fn case(x: f64, y: f64, eq: f64, er: f64) {
+            let a = Value::from(x); let b = Value::from(y);
+            let q = int_div(&a, &b); let r = rem(&a, &b);
+            match (&q, &r) {
+                (Ok(q), Ok(r)) => {
+                    let (q, r) = (f64_of(q).unwrap(), f64_of(r).unwrap());
+                    assert!(q == eq);
+                    assert!(r == er);
+                    assert!(q * y + r == x && 0.0 <= r && r < y.abs());
+                }
+                _ => { assert!(false); }
             }
-            _ => { assert!(false); }
+            std::mem::forget(q); std::mem::forget(r); std::mem::forget(a); std::mem::forget(b);
         }
-        kani::cover!(xi < 0, "negative");
-        std::mem::forget(q); std::mem::forget(r); std::mem::forget(a); std::mem::forget(b);
+        case(7.0, 2.0, 3.0, 1.0);
+        case(-7.0, 2.0, -4.0, 1.0);
+        case(7.0, -2.0, -3.0, 1.0);
+        case(-7.0, -2.0, 4.0, 1.0);
+        case(-7.5, 2.0, -4.0, 0.5);
+        case(6.0, 3.0, 2.0, 0.0);
     }
